@@ -218,3 +218,64 @@ Proof.
   destruct H1 as [H1|[H1 H1']], H2 as [H2|[H2 H2']]; try lia.
   subst y. f_equal. apply IH; assumption.
 Qed.
+
+(* ------------------------------------------------------------------ *)
+(* History independence on the persisted-state machine (Ext/History.v) *)
+(* ------------------------------------------------------------------ *)
+From GQL Require Import Ext.History.
+
+Section HistoryProofs.
+  Variable val resp : Type.
+  Variable init : N -> val.
+
+  Lemma wf_empty : wf val init (empty val).
+  Proof. intros s v H. discriminate. Qed.
+
+  Lemma wf_set_init : forall f s, (forall s' v, f s' = Some v -> v = init s') ->
+    forall s' v, set_slot val f s (Some (init s)) s' = Some v -> v = init s'.
+  Proof.
+    intros f s H s' v E. unfold set_slot in E. destruct (N.eqb_spec s' s) as [Q|Q].
+    - injection E as E. subst. reflexivity.
+    - apply H. exact E.
+  Qed.
+
+  Lemma wf_set_none : forall f s, (forall s' v, f s' = Some v -> v = init s') ->
+    forall s' v, set_slot val f s None s' = Some v -> v = init s'.
+  Proof.
+    intros f s H s' v E. unfold set_slot in E. destruct (s' =? s); [discriminate | apply H; exact E].
+  Qed.
+
+  Lemma exec_wf : forall p st, wf val init st ->
+    fst (exec val resp init p st) = answer val resp init p /\ wf val init (snd (exec val resp init p st)).
+  Proof.
+    induction p as [r|s k IH]; intros st W; [split; [reflexivity | exact W]|].
+    cbn [exec answer]. destruct (slots val st s) as [v|] eqn:E.
+    - rewrite (W s v E). apply IH. exact W.
+    - apply IH. unfold wf. cbn [slots]. apply wf_set_init. exact W.
+  Qed.
+
+  Lemma step_wf : forall st o, wf val init st -> wf val init (step val resp init st o).
+  Proof.
+    intros st [p|s|] W; cbn [step].
+    - apply exec_wf. exact W.
+    - unfold wf. cbn [slots]. apply wf_set_none. exact W.
+    - apply wf_empty.
+  Qed.
+
+  Lemma run_from_wf : forall h st, wf val init st -> wf val init (run_from val resp init st h).
+  Proof.
+    induction h as [|o r IH]; intros st W; [exact W|]. cbn [run_from fold_left]. apply IH. apply step_wf. exact W.
+  Qed.
+
+  Theorem history_independent : forall h p,
+    fst (exec val resp init p (run val resp init h)) = fst (exec val resp init p (empty val)).
+  Proof.
+    intros h p.
+    destruct (exec_wf p (run val resp init h) (run_from_wf h (empty val) wf_empty)) as [A _].
+    destruct (exec_wf p (empty val) wf_empty) as [B _]. rewrite A, B. reflexivity.
+  Qed.
+
+  Theorem history_independent_from : forall st h p, wf val init st ->
+    fst (exec val resp init p (run_from val resp init st h)) = answer val resp init p.
+  Proof. intros st h p W. apply exec_wf. apply run_from_wf. exact W. Qed.
+End HistoryProofs.
